@@ -30,7 +30,8 @@ META = {
              'rays handed over in six memory layouts or a narrower safely '
              'castable type, contents starting with gzip / zlib magic numb'
              'ers, a second live dataset with the same keys, stored compre'
-             'ssed_segmentation files decoded from the format description.'),
+             'ssed_segmentation files decoded from the format description.'
+             " Round 12: regular label structure for compressed_segmentation chunks; a third of the datasets isotropic (cubic chunks and blocks)."),
     "trusted_base": ["dict model", "independent on_grid predicate",
                      "JPEG tolerance max %d / mean %.1f grey levels on "
                      "smooth content (calibrated: observed max 8 / mean 1.2 "
@@ -113,10 +114,16 @@ class ChunkIO(RuleBasedStateMachine):
             sizes = [min(100, 41 + 3 * s // 2) for s in sizes]
             chunks = [32 + c for c in chunks]
             channels = 1 if channels == 2 else channels
+        # a third of the datasets are isotropic (cubic chunks and cubic
+        # blocks, the usual real-world configuration): border chunks then
+        # have border blocks of transposed shapes
+        isotropic = (sum(chunks) + sum(blocks)) % 3 == 0
+        if isotropic:
+            self.flags.add("isotropic_chunks_and_blocks")
         for i in range(nscales):
             size = sizes[3 * i:3 * i + 3]
             chunk = chunks[3 * i:3 * i + 3]
-            if sharded:
+            if sharded or isotropic:
                 chunk = [chunk[0]] * 3
             allowed = ["raw"]
             if dtype in ("uint32", "uint64"):
@@ -127,7 +134,8 @@ class ChunkIO(RuleBasedStateMachine):
             # the block size is a per-scale field
             scales.append(ds.make_scale(
                 keystyle % i, size, chunk, enc,
-                block=blocks[i % 3:] + blocks[:i % 3],
+                block=[blocks[i % 3]] * 3 if isotropic else
+                blocks[i % 3:] + blocks[:i % 3],
                 sharding=ds.sharding_dict(bits[0], bits[1], bits[2],
                                           shard_enc, shard_enc)
                 if sharded else None))
